@@ -1,10 +1,34 @@
 import Rio.Spec.TreeHash
+import Rio.Model.Tar
+import Rio.Proofs.Sort
 /-!
 # C05 — WareID follows the frozen tree-hash format
 
 `Rio/Spec/TreeHash.lean` is the format: `specHash`. The implementation model is `hashBucket`.
 -/
 namespace Rio
+
+/-- **Compression detection does not depend on Go's map iteration order.** `DetectCompression` ranges
+    over a `map[Compression][]byte`; whatever order the runtime picks, the answer is the same, because
+    the three magic patterns start with different bytes so that at most one can match. -/
+theorem C05_detect (src : Bytes) (order : List (Compression × Bytes)) (h : order.Perm magicTable) :
+    detectCompressionIn order src = detectCompression src := by
+  unfold detectCompression detectCompressionIn
+  have huniq : ∀ a ∈ magicTable, ∀ b ∈ magicTable, hasPrefix src a.2 = true → hasPrefix src b.2 = true → a = b := by
+    intro a ha b hb pa pb
+    simp only [magicTable, List.mem_cons, List.mem_nil_iff, or_false] at ha hb
+    cases src with
+    | nil => rcases ha with rfl | rfl | rfl <;> simp [hasPrefix, magicBzip2, magicGzip, magicXz] at pa
+    | cons x xs =>
+      rcases ha with rfl | rfl | rfl <;> rcases hb with rfl | rfl | rfl <;>
+        simp_all [hasPrefix, magicBzip2, magicGzip, magicXz]
+  have huniq' : ∀ a ∈ order, ∀ b ∈ order, hasPrefix src a.2 = true → hasPrefix src b.2 = true → a = b :=
+    fun a ha b hb => huniq a (h.mem_iff.1 ha) b (h.mem_iff.1 hb)
+  rw [find?_perm_unique (fun cm => hasPrefix src cm.2) h huniq']
+
+/-- a gzip stream is detected as gzip, plain tar as uncompressed (tests) -/
+example : detectCompression [0x1f, 0x8b, 0x08, 0, 0, 0, 0, 0, 0, 0xff] = .gzip := by decide
+example : detectCompression [0x2e, 0x2f, 0, 0, 0, 0, 0, 0, 0, 0] = .uncompressed := by decide
 
 private def d (name : Bytes) (ls : Int) : Record := mkRecord (defaultDirMeta ⟨name, ls⟩) []
 private def f (name : Bytes) (ls : Int) (c : Bytes) : Record :=
